@@ -372,6 +372,13 @@ class Gen:
             if self.axis:
                 perm = R.sample(range(3), 3)
                 M = [tuple(F(R.choice([1, 1, 2, -1])) if t == perm[j] else F(0) for t in range(3)) for j in range(3)]
+            elif R.random() < 0.15:
+                # diagonal frame: face normals such as (1,-1,0), (1,1,0) -- two components of EQUAL magnitude (ties in anything that
+                # picks a dominant / first significant component), opposite or equal sign
+                perm = R.sample(range(3), 3)
+                rows = [(1, 1, 0), (1, -1, 0), (0, 0, R.choice([1, 2]))]
+                sg = R.choice([1, -1])
+                M = [tuple(F(sg * rows[j][perm.index(t)]) for t in range(3)) for j in range(3)]
             if E.det3(*M) == 0:
                 continue
             t = self.ipt(-2, 2)
